@@ -49,7 +49,7 @@ class Check(PropertyCheck):
             t = gen.random_diagram(self.rng, 20, 6)
             sw = self.rng.below(8)
             st = self.rand_settings(bool(sw & 1), bool(sw & 2), bool(sw & 4))
-            e = self.rng.choice(["settings", "settings", ("override", self.rng.choice([1.0, 100.5, 640.0]), self.rng.choice([2.0, 33.25]))])
+            e = self.rng.choice(["settings", "settings", ("override", self.rng.choice([1.0, 100.5, 640.0, 0.0, -1.0]), self.rng.choice([2.0, 33.25, 0.0, -8.0]))])
             cases.append((t, st, e))
             if self.rng.chance(1, 4):
                 cases.append((t, backend.Settings(), self.rng.choice(["to_svg", "pretty", "compressed"])))
@@ -105,7 +105,7 @@ class Check(PropertyCheck):
             base = self.rand_settings(True, True, True)
             other = self.rand_settings(True, True, True)
             other.scale = base.scale
-            ow, oh = backend.f32(self.rng.choice([10.0, 123.5])), backend.f32(self.rng.choice([7.0, 64.25]))
+            ow, oh = backend.f32(self.rng.choice([10.0, 123.5, 0.0, -1.0, 640.0])), backend.f32(self.rng.choice([7.0, 64.25, 0.0, 120.0, -2.5]))
             metas.append((base, other, ow, oh))
             for sw in range(8):
                 st = backend.Settings(scale=base.scale, sw=base.sw, fs=base.fs, ff=base.ff, fill=base.fill, bg=base.bg,
@@ -178,7 +178,9 @@ class Check(PropertyCheck):
                 so, do, bo, _ = svgcanon.split_root(o)
                 fs, fd, fb, _ = svgcanon.split_root(full)
                 ow, oh = metas[i][2], metas[i][3]
-                if geometry(o) != g7 or canon_tree(so) != canon_tree(fs) or canon_tree(do) != canon_tree(fd):
+                if bo is None or so is None or do is None:
+                    bad = "an overridden size removes the backdrop, the style sheet or the defs"
+                elif geometry(o) != g7 or canon_tree(so) != canon_tree(fs) or canon_tree(do) != canon_tree(fd):
                     bad = "override size changes more than root and backdrop dimensions"
                 elif svgcanon.num(o.attrs["width"]) != svgcanon.Fraction(ow) or svgcanon.num(o.attrs["height"]) != svgcanon.Fraction(oh):
                     bad = "override size not used for the root"
